@@ -653,13 +653,19 @@ def V(key, what, case):
 
 
 def file_keywords(path, order):
+    """section keywords of a data file in file order (the ELEME/CONNE/GENER sub-headings inside SHORT are skipped)"""
     kws = []
     with open(path) as f:
         lines = f.read().split('\n')
+    in_short = False
     for ln in lines[1:]:
-        k = ln[0:5].strip()
-        if k in order and ln[0:5].rstrip() == k and ln[5:].strip() in ('',) + tuple(str(i) for i in range(100)):
+        if in_short:
+            if not ln.strip(): in_short = False
+            continue
+        k = ln[0:5].rstrip()
+        if k in order and (ln[5:].strip() == '' or (k == 'SHORT' and ln[5:].strip().isdigit())):
             kws.append(k)
+            in_short = (k == 'SHORT')
     return kws
 
 
@@ -930,3 +936,535 @@ def oracle_conversion(case, tmp, order):
         else:
             viol = oracle_to_autough2(case, b, before, tmp, order)
     return viol, b, outcome, st1, st0, scope
+
+
+# ------------------------------------------------------------------ Waiwera export: cases, real run, oracle
+
+EOS_TABLE = {'W': 'w', 'EW': 'we', 'EWC': 'wce', 'EWAV': 'wae', 'EWT': 'we', 'EWTD': 'we'}    # the oracle's own copy
+EOS_INDEX = {1: 'EW', 2: 'EWC', 4: 'EWAV'}
+WAI_TYPES = ['MASS', 'HEAT', 'COM1', 'COM2', 'WATE', 'AIR ', 'DELV', 'DELG', 'DELS', 'DELT', 'DELW', 'DMAK', 'DMAT', 'RECH',
+             'IMAK', 'XINJ', 'FINJ', 'PINJ', 'RINJ', 'TMAK', 'MASD', 'TRAC', 'NACL', 'COMX']
+WAI_UNSUPPORTED = ['CO2 ', 'FEED', 'HLOS', 'MAKE', 'POWR', 'TOST', 'VOL.', 'WBRE', 'WFLO', 'XIN2']
+
+
+def wai_case(rng):
+    geo = rand_geo(rng)
+    if rng.random() < 0.3:
+        geo['dx'] = [rng.choice([5., 10.]) for _ in range(rng.randint(1, 4))]
+        geo['dz'] = [rng.choice([2., 5.]) for _ in range(rng.randint(1, 4))]
+    blocks, cons = geo_names(geo)
+    nr = rng.choice([1, 2, 3])
+    case = {'geo': geo, 'rocks': ['rock%d' % i for i in range(nr)], 'assign': [rng.randrange(nr) for _ in blocks]}
+    vol = {}
+    for bn in blocks:
+        r = rng.random()
+        if r < 0.08: vol[bn] = 0.0
+        elif r < 0.16: vol[bn] = rng.choice([1.e25, 1.e30, 1.e50, 1.e20])
+    if rng.random() < 0.3: vol = {}
+    case['vol'] = vol
+    case['atmos_volume'] = rng.choice([1.e25, 1.e25, 1.e25, 1.e20, 1.e30])
+    name = rng.choice(list(EOS_TABLE))
+    mode = rng.choice(['explicit', 'index', 'multi', 'sim', 'sim', 'multi+sim', 'none', 'unsupported'])
+    sim, multi, arg = '', [], None
+    base = rng.choice(['AUTOUGH2.2', 'AUTOUGH2', 'MULKOM', 'AUTOUGH2.2 ', 'XYZ'])
+    if mode == 'explicit': arg = name; sim = rng.choice(['', base + 'EW'])
+    elif mode == 'index':
+        i = rng.choice([1, 2, 4]); arg = i; name = EOS_INDEX[i]
+    elif mode == 'multi':
+        multi = [('num_components', 1), ('eos', rng.choice([name, name + ' ', ' ' + name]))]; sim = rng.choice(['', base])
+    elif mode == 'sim':
+        sim = base + name
+        if rng.random() < 0.4: multi = [('num_components', 1), ('num_equations', 2)] + ([('eos', rng.choice(['', '  ', None]))] if rng.random() < 0.5 else [])
+    elif mode == 'multi+sim':
+        other = rng.choice(list(EOS_TABLE)); multi = [('eos', name)]; sim = base + other
+    elif mode == 'none':
+        sim = rng.choice(['', base, 'AUTOUGH2.2ex']); multi = rng.choice([[], [('num_components', 1)], [('eos', '')]]); name = None
+        if rng.random() < 0.3: arg = rng.choice([0, 5, 7, '']); 
+    else:
+        name = None
+        r = rng.random()
+        if r < 0.3: arg = rng.choice(['EWA', 'EOS1', 'ew', 3])
+        elif r < 0.6: multi = [('eos', rng.choice(['EWA', 'XX', 'ew']))]
+        else: multi = [('eos', 'EWA')]; sim = base + 'EW'
+    case['eos'] = {'mode': mode, 'name': name, 'arg': arg}
+    case['simulator'], case['multi'] = sim, multi
+    case['incons'] = [1.e5, 20., 0.25, 0.0][:rng.choice([4, 4, 4, 3, 2, 1, 0])]
+    gens = []
+    pool = blocks + ['zzz 9']
+    wf = True
+    for k in range(rng.choice([0, 1, 2, 3, 5, 8])):
+        r = rng.random()
+        typ = rng.choice(WAI_TYPES) if r < 0.95 else rng.choice(WAI_UNSUPPORTED)
+        if typ in WAI_UNSUPPORTED: wf = False
+        gens.append((k + 1, rng.choice(pool), rng.choice(GEN_NAMES + ['', 'wel 1']), typ, 10 + k))
+    case['gens'] = gens
+    case['wf_gens'] = wf
+    return case
+
+
+def wai_build(case):
+    import t2data as T, t2grids
+    geo = make_geo(case['geo'])
+    d = T.t2data()
+    d.title = 'c20 waiwera'; d.filename = 'model.dat'
+    d.grid = quiet(t2grids.t2grid().fromgeo, geo)
+    d.grid.rocktypelist = []; d.grid.rocktype = {}
+    for n in case['rocks']:
+        d.grid.add_rocktype(t2grids.rocktype(name=n))
+    for blk, r in zip(d.grid.blocklist, case['assign']):
+        blk.rocktype = d.grid.rocktypelist[r]
+    for bn, v in case['vol'].items():
+        d.grid.block[bn].volume = v
+    d.simulator = case['simulator']
+    d.multi = dict(case['multi'])
+    d.parameter['default_incons'] = list(case['incons'])
+    if case['eos']['name'] == 'EWTD' or 'EWTD' in case['simulator'] or any(v == 'EWTD' for _, v in case['multi']) or case['eos']['arg'] == 'EWTD':
+        d.diffusion = [[-1.e-6, -1.e-6], [-1.e-6, -1.e-6]]
+    for spec in case['gens']:
+        d.add_generator(mk_gen(T, spec))
+    return geo, d
+
+
+def exc_name(e):
+    return type(e).__name__
+
+
+def wai_real(case):
+    """run the pieces of the export on the real code; canonical observations"""
+    geo, d = wai_build(case)
+    obs = {}
+    arg = case['eos']['arg']
+    try:
+        j, tr = quiet(d.eos_json, arg)
+        obs['eos'] = 'ok %s %d' % (eS(j['eos']['name']), 1 if tr else 0)
+        eosname = j['eos']['name']
+    except Exception as e:
+        obs['eos'] = 'exc ' + exc_name(e); eosname = 'we'
+    try:
+        j = quiet(d.rocks_json, geo, case['atmos_volume'], 'xyz')
+        cells = [t['cells'] for t in j['rock']['types']]
+        obs['rocks'] = 'ok ' + eL(lambda c: eL(lambda i: 'i%d' % int(i), c), cells)
+    except Exception as e:
+        obs['rocks'] = 'exc ' + exc_name(e)
+    try:
+        j = quiet(d.generators_json, geo, eosname)
+        src = j.get('source', [])
+        obs['src'] = 'ok ' + eL(lambda s: eS(s['name']) + ' ' + ('n' if s['cell'] is None else 'i%d' % int(s['cell'])), src)
+    except Exception as e:
+        obs['src'] = 'exc ' + exc_name(e)
+    obs['bdy'] = 'ok ' + eL(eS, [b.name for b in d.grid.blocklist if not (0. < b.volume < case['atmos_volume'])])
+    # the whole export
+    try:
+        full = quiet(d.json, geo, 'mesh.exo', atmos_volume=case['atmos_volume'], eos=arg)
+        err = None
+    except Exception as e:
+        import traceback
+        full, err = None, (exc_name(e), [f.name for f in traceback.extract_tb(e.__traceback__)][-1], str(e)[:80])
+    return geo, d, obs, full, err
+
+
+def wai_requests(case, geo, d):
+    """the same questions for the model"""
+    arg = case['eos']['arg']
+    a = 'n' if arg is None else ('i%d' % arg if isinstance(arg, int) else eS(arg))
+    names = list(geo.block_name_list)
+    blocks = eL(lambda b: '%s %s %s' % (eS(b.name), eS(b.rocktype.name), eQ(float(b.volume))), d.grid.blocklist)
+    gens = eL(eGen, [(i + 1, g.block, g.name, g.type, int(g.gx)) for i, g in enumerate(d.generatorlist)])
+    return {
+        'eos': 'eos %s %s %s %d' % (a, eD(case['multi']), eS(case['simulator']), len(case['incons'])),
+        'rocks': 'rocks %s %s %d %s %s' % (eL(eS, [r.name for r in d.grid.rocktypelist]), eL(eS, names), geo.num_atmosphere_blocks,
+                                           blocks, eQ(case['atmos_volume'])),
+        'src': 'src %s %d %s %d' % (eL(eS, names), geo.num_atmosphere_blocks, gens, len(d.generator)),
+        'bdy': 'bdy %s %s' % (blocks, eQ(case['atmos_volume']))}
+
+
+def VW(key, what, case):
+    return dict(key=key, what=what, case={'waiwera': case})
+
+
+def oracle_waiwera(case, geo, d, full, err):
+    """the export clauses of the property on the dict returned by json()"""
+    out = []
+    mode, name = case['eos']['mode'], case['eos']['name']
+    nprim = {'w': 1, 'we': 2, 'wce': 3, 'wae': 3}
+    expect_ok = name is not None and case['wf_gens']
+    if expect_ok:
+        need = nprim[EOS_TABLE[name]] + (1 if name in ('EWT', 'EWTD') else 0)
+        if name == 'W': need = max(need, 2)
+        expect_ok = len(case['incons']) >= need
+    if case['atmos_volume'] > 1.e25:
+        return out            # the atmosphere blocks themselves would count as cells: not a configuration the property describes
+    if not expect_ok:
+        return out            # outside the property (no EOS given anywhere, unsupported generator type, too few primaries)
+    if err is not None:
+        if mode == 'sim' and 'EOS not detected' in err[2]:
+            return [VW('eos-not-detected-from-simulator', 'json(): EOS %s given only by the simulator string %r is not recognised (%s)'
+                       % (name, case['simulator'], err[2]), case)]
+        if err[0] == 'IndexError' and err[1] == 'boundaries_json':
+            return [VW('json-boundary-block-without-faces-indexerror', 'json() raises IndexError in boundaries_json (boundary block without interior neighbour)', case)]
+        return [VW('json-raises:%s:%s' % (err[0], err[1]), 'json() raises %s in %s: %s' % err, case)]
+    if full['eos']['name'] != EOS_TABLE[name]:
+        key = 'eos-not-detected-from-simulator' if mode == 'sim' else 'eos-wrong:' + mode
+        out.append(VW(key, 'EOS %s (%s) exported as %r' % (name, mode, full['eos']['name']), case))
+    # rock cells: a partition of the non-boundary blocks
+    nat = geo.num_atmosphere_blocks
+    types = full['rock']['types']
+    by_name = {}
+    for t in types: by_name.setdefault(t['name'], []).append(t)
+    allcells = [c for t in types for c in t['cells']]
+    n_int = 0
+    for i, bn in enumerate(geo.block_name_list):
+        blk = d.grid.block[bn]
+        cell = i - nat
+        interior = 0. < blk.volume < case['atmos_volume']
+        cnt = allcells.count(cell)
+        if interior:
+            n_int += 1
+            mine = sum(t['cells'].count(cell) for t in by_name.get(blk.rocktype.name, []))
+            if cnt != 1 or mine != 1:
+                out.append(VW('rock-cells-partition', 'non-boundary block %r (cell %d, rock %s) occurs %d time(s) in the rock cell lists, %d in its own'
+                              % (bn, cell, blk.rocktype.name, cnt, mine), case)); break
+        elif cnt != 0:
+            out.append(VW('rock-cells-partition', 'boundary block %r (volume %r) occurs in a rock cell list as cell %d' % (bn, blk.volume, cell), case)); break
+    if len(allcells) != n_int and not out:
+        out.append(VW('rock-cells-partition', '%d cells listed for %d non-boundary blocks' % (len(allcells), n_int), case))
+    # sources
+    grp = [g for g in d.generatorlist if g.type != 'TMAK']
+    src = full.get('source', [])
+    if len(src) != len(grp):
+        out.append(VW('source-count', '%d sources for %d non-group generators' % (len(src), len(grp)), case))
+    else:
+        index = {bn: i for i, bn in enumerate(geo.block_name_list)}
+        for s, g in zip(src, grp):
+            want = index.get(g.block)
+            if want is not None:
+                want -= nat
+                if want < 0: want = None
+            if s['cell'] != want:
+                out.append(VW('source-cell', 'source %r of generator %s:%s has cell %r, its block is cell %r' % (s['name'], g.block, g.name, s['cell'], want), case)); break
+    return out
+
+
+# ------------------------------------------------------------------ history name lines (FOFT / COFT / GOFT)
+
+class _Sink:
+    def __init__(self): self.buf = []
+    def write(self, s): self.buf.append(s)
+    def lines(self): return ''.join(self.buf).split('\n')
+
+
+class _Source:
+    def __init__(self, lines): self.l = list(lines); self.i = 0
+    def readline(self):
+        if self.i < len(self.l):
+            x = self.l[self.i] + '\n'; self.i += 1; return x
+        return ''
+
+
+def history_lines_real(b):
+    """what the real writers print for the three history lists, and what the real readers make of those lines"""
+    import t2data as T
+    d = b.d
+    res = {}
+    for kind, fn, rd in (('hb', d.write_history_blocks, 'read_history_blocks'), ('hc', d.write_history_connections, 'read_history_connections'),
+                         ('hg', d.write_history_generators, 'read_history_generators')):
+        sink = _Sink()
+        try:
+            fn(sink)
+        except AttributeError:
+            res[kind] = ('exc AttributeError', None); continue
+        ls = sink.lines()
+        body = ls[1:ls.index('', 1)] if len(ls) > 1 else []
+        if kind == 'hc':
+            names = [(x[0:5], x[5:10]) for x in body]
+            w = 'ok ' + eL(lambda p: eS(p[0]) + ' ' + eS(p[1]), names)
+        else:
+            names = [x[0:5] for x in body]
+            w = 'ok ' + eL(eS, names)
+        e = T.t2data(); e.grid = d.grid
+        quiet(getattr(e, rd), _Source(body + ['']))
+        eb = Built(); eb.d = e; eb.genid = b.genid
+        items = extract(eb)[kind]
+        res[kind] = (w, (names, 'ok ' + eL(eItem, items)))
+    return res
+
+
+# ------------------------------------------------------------------ module metadata
+
+THEOREMS = ['Props.C20.' + t for t in [
+    'to_tough2_declares_tough2', 'to_tough2_succeeds', 'to_tough2_no_autough2_sections', 'to_tough2_other_sections',
+    'to_tough2_generators']]
+LEVEL_TEXT = ''
+LEVEL_NOTE = ''
+TECHNIQUE = ('Lean 4 proofs over an executable model of the conversion / export control flow + generated tables re-checked by `decide` '
+             '+ differential correspondence with the real t2data object + direct property oracle incl. real file round trip')
+ASSUMPTIONS = [
+    'ASCII names; generator objects are distinct (no object listed twice in generatorlist)',
+    'file round trip (write()+read()) is evaluated by the oracle on the real code, the byte level belongs to C01; names are stable under fix/unfix_blockname',
+    'floats: porosity / conductivity on the grid k/16, m/4 so that c*(1-phi) is exact in double and in Q',
+    'Waiwera: only the EOS name, the rock cell lists, the boundary block set and the (name, cell) of each source are modelled; the numeric payload of a source, '
+    'the mesh, initial and boundary-face sections are exercised through json() by the oracle only',
+]
+TRUSTED_EXTRA = ['harness/translate/convert_tables.py (AST literals and evaluated MOP tables of the current t2data.py)']
+
+
+# ------------------------------------------------------------------ fixed corpus (repros of the defects found so far)
+
+def _blank_short():
+    return {'freq': None, 'block': None, 'con': None, 'gen': None}
+
+
+def corpus_conv():
+    g = {'dx': [10., 10., 10.], 'dy': [10., 10.], 'dz': [5., 5.], 'atm': 0, 'order': None}
+    base = {'geo': g, 'filename': 'model.dat', 'multi': [], 'lineq': [], 'solver': [], 'option': [0] * 25,
+            'rocks': [('rock0', Fraction(1, 4), Fraction(5, 2), 900)], 'free_gens': [], 'short': _blank_short(),
+            'hb': [], 'hc': [], 'hg': [], 'other': [], 'wf': True, 'mode': 'corpus'}
+    out = []
+    # 88b05dd: unsupported generators must be deleted from list and lookup
+    c = copy.deepcopy(base)
+    c.update(simulator='AUTOUGH2.2EW', sections=['SIMUL', 'ROCKS', 'PARAM', 'ELEME', 'CONNE', 'GENER'],
+             gens=[(1, '  a 1', 'wel 1', 'MASS', 11), (2, '  b 1', 'wel 2', 'DELG', 12), (3, '  c 1', 'inj 1', 'CO2 ', 13),
+                   (4, '  a 1', 'wel 1', 'RECH', 14)], ops=[('toT2', False, False)])
+    out.append(c)
+    # d148591: MOP(21) = 7..9 without a SOLVR type
+    for dig in (7, 8, 9):
+        c = copy.deepcopy(base)
+        opt = [0] * 25; opt[21] = dig
+        c.update(simulator='', sections=['ROCKS', 'PARAM', 'ELEME', 'CONNE'], gens=[], option=opt, ops=[('toA2', False, 'AUTOUGH2.2', 'EW')])
+        out.append(c)
+    # known: GOFT written with generator names after conversion
+    c = copy.deepcopy(base)
+    sh = _blank_short(); sh['gen'] = ([('G', 1, '  a 1', 'wel 1')],)
+    c.update(simulator='AUTOUGH2.2EW', sections=['SIMUL', 'ROCKS', 'PARAM', 'ELEME', 'CONNE', 'GENER', 'SHORT'],
+             gens=[(1, '  a 1', 'wel 1', 'MASS', 11)], short=sh, ops=[('toT2', False, False)])
+    out.append(c)
+    # known: GOFT block requests dropped by convert_to_AUTOUGH2
+    c = copy.deepcopy(base)
+    c.update(simulator='', sections=['ROCKS', 'PARAM', 'ELEME', 'CONNE', 'GENER', 'GOFT'],
+             gens=[(1, '  a 1', 'wel 1', 'MASS', 11)], hg=[('B', '  a 1')], ops=[('toA2', False, 'AUTOUGH2.2', 'EW')])
+    out.append(c)
+    return out
+
+
+def corpus_wai():
+    g = {'dx': [10., 10., 10.], 'dy': [10., 10.], 'dz': [5., 5., 5.], 'atm': 1, 'order': None}
+    blocks, _ = geo_names(g)
+    base = {'geo': g, 'rocks': ['rock0'], 'assign': [0] * len(blocks), 'vol': {}, 'atmos_volume': 1.e25,
+            'eos': {'mode': 'sim', 'name': 'EW', 'arg': None}, 'simulator': 'AUTOUGH2.2EW', 'multi': [],
+            'incons': [1.e5, 20., 0.25, 0.0], 'gens': [(1, '  a 1', 'wel 1', 'MASS', 11)], 'wf_gens': True}
+    out = [copy.deepcopy(base)]                                   # f70f5b8: EOS only in the simulator string
+    c = copy.deepcopy(base); c['multi'] = [('num_components', 1), ('num_equations', 2)]
+    out.append(c)                                                 # ... with a MULTI block that names no EOS
+    c = copy.deepcopy(base); c['vol'] = {'  a 1': 0.0}
+    out.append(c)                                                 # d9f6fbf: boundary block without interior neighbour
+    return out
+
+
+# ------------------------------------------------------------------ run
+
+def translate(ctx):
+    from translate import convert_tables
+    convert_tables.translate(ctx)
+
+
+def _section_order():
+    global SECTION_ORDER
+    import importlib, t2data
+    SECTION_ORDER = list(t2data.t2data_sections)
+    return SECTION_ORDER
+
+
+def conv_stream(ctx, scale=1.0):
+    rng = ctx.rng('convert')
+    for c in corpus_conv():
+        yield c
+    for c in mop_cases():
+        yield c
+    n = int(ctx.n(2400, 40000) * scale)
+    for k in range(n):
+        yield conv_case(rng, ('a2t', 't2a', 'mixed')[k % 3])
+
+
+def wai_stream(ctx, scale=1.0):
+    rng = ctx.rng('waiwera')
+    for c in corpus_wai():
+        yield c
+    for k in range(int(ctx.n(700, 12000) * scale)):
+        yield wai_case(rng)
+
+
+def nontrivial_conv(case, st0, st1, outcome):
+    """the case exercised a non-default branch: something other than simulator/sections/filename changed, or it raised"""
+    if outcome[0] == 'exc': return True
+    keys = ('multi', 'lineq', 'solver', 'option', 'rocks', 'gens', 'gendict', 'short', 'hb', 'hc', 'hg')
+    return any(st0[k] != st1[k] for k in keys)
+
+
+def run(ctx, scale=1.0, model=True):
+    import importlib, t2data, t2grids, mulgrids
+    for m in (mulgrids, t2grids, t2data):
+        importlib.reload(m)
+    _GEO_CACHE.clear()
+    order = _section_order()
+    res = Result()
+    res.rule = ('conversion cases = (data object of either flavour built through the public constructors, 1..5 operations); distinct = distinct '
+                '(initial state, operations) encodings; non-trivial = the operations changed at least one of multi/lineq/solver/MOP/rocks/'
+                'generators/lookup/short output/history lists or raised.  Waiwera cases = (rectangular geometry, rock assignment, special '
+                'volumes, EOS source, generators); non-trivial = at least one boundary block of non-default volume, or an EOS not given explicitly, '
+                'or a generator outside the grid/in the atmosphere')
+    use_model = model and ctx.model_ok
+    fc, ff, fh = res.facet('convert'), res.facet('convert_file'), res.facet('history_lines')
+    fe, fr, fs, fb = res.facet('waiwera_eos'), res.facet('waiwera_rocks'), res.facet('waiwera_sources'), res.facet('waiwera_boundary')
+    lines, expect = [], []        # driver requests and (facet, expected reply, case-json, decode?)
+    hyp_nodup = [0, 0]
+    for case in conv_stream(ctx, scale):
+        viol, b, outcome, st1, st0, scope = oracle_conversion(case, ctx.tmp, order)
+        res.violations += viol
+        res.evaluations += 1
+        res.count('conv-mode:' + case['mode'])
+        res.count('conv-scope:' + str(scope))
+        res.count('conv-outcome:' + (outcome[0] if outcome[0] == 'ok' else outcome[1][0]))
+        for op in case['ops']: res.count('op:' + op[0])
+        res.count('n-gens:%d' % min(len(st0['gens']), 8))
+        res.count('grid:' + ('none' if not case['geo'] else 'atm%d' % case['geo']['atm']))
+        if scope == 'a2t':
+            types = [g[3] for g in st0['gens']]
+            res.count('a2t-gens:supported', sum(1 for t in types if tough2_type(t)))
+            res.count('a2t-gens:convertible', sum(1 for t in types if t == 'CO2 '))
+            res.count('a2t-gens:unsupported', sum(1 for t in types if not tough2_type(t) and t != 'CO2 '))
+            keys = [(g[1], g[2]) for g in st0['gens']]
+            res.count('a2t-duplicate-keys', int(len(set(keys)) < len(keys)))
+            sh = st0['short']
+            res.count('a2t-short:' + ''.join(c for c, k in (('b', 'block'), ('c', 'con'), ('g', 'gen')) if sh[k] is not None))
+        if scope == 't2a':
+            res.count('t2a-hist:' + ('objects' if any(i[0] in 'BCG' for i in st0['hb'] + st0['hc'] + st0['hg']) else '')
+                      + ('+names' if any(i[0] in 'ST' for i in st0['hb'] + st0['hc'] + st0['hg']) else ''))
+        hyp_nodup[1] += 1
+        if len(set(st0['sections'])) == len(st0['sections']): hyp_nodup[0] += 1
+        enc0 = eT2(st0); ops = eL(eOp, case['ops'])
+        key = enc0 + '|' + ops
+        if nontrivial_conv(case, st0, st1, outcome): res.distinct.add(key)
+        exp = ('ok ' if outcome[0] == 'ok' else 'exc %s %d ' % outcome[1]) + eT2(st1)
+        lines.append('conv %s %s' % (enc0, ops)); expect.append(('convert', exp, case, st1))
+        if res.evaluations % 400 == 1:
+            res.sample({'ops': [list(o) for o in case['ops']], 'simulator': st0['simulator'], 'sections_before': st0['sections'],
+                        'sections_after': st1['sections'], 'gens_before': [g[1:4] for g in st0['gens']], 'gens_after': [g[1:4] for g in st1['gens']],
+                        'outcome': outcome[0] if outcome[0] == 'ok' else outcome[1][0]})
+        if outcome[0] == 'ok':
+            # keyword order of the written file vs update_sections of the model
+            try:
+                path = os.path.join(str(ctx.tmp), 'c20_kw.dat')
+                old = b.d.filename
+                quiet(b.d.write, path)
+                b.d.filename = old
+                kws = file_keywords(path, order)
+                wrote = True
+            except Exception:
+                wrote = False          # a model that cannot be written at all (C01/C02 territory: e.g. over-long type name)
+                res.count('unwritable')
+            if wrote:
+                ops2 = list(case['ops']) + [('updSec',)]
+                lines.append('conv %s %s' % (enc0, eL(eOp, ops2))); expect.append(('convert_file', kws, case, None))
+            # history name lines
+            hl = history_lines_real(b)
+            for kind in ('hb', 'hc', 'hg'):
+                w, rd = hl[kind]
+                lines.append(('wcons ' if kind == 'hc' else 'whist ') + eL(eItem, st1[kind])); expect.append(('history_lines', w, case, None))
+                if rd is not None:
+                    names, items = rd
+                    if kind == 'hc':
+                        lines.append('rcons %s %s %s' % (eL(eS, st1['blocks']),
+                                                         eL(lambda p: eS(p[0]) + ' ' + eS(p[1]), list(b.d.grid.connection.keys())),
+                                                         eL(lambda p: eS(p[0]) + ' ' + eS(p[1]), names)))
+                    else:
+                        lines.append('rhist %s %s' % (eL(eS, st1['blocks']), eL(eS, names)))
+                    expect.append(('history_lines', items, case, None))
+    res.hyp['sections.Nodup (hypothesis of to_tough2_sections / to_autough2_sections)'] = hyp_nodup
+    # Waiwera
+    for case in wai_stream(ctx, scale):
+        geo, d, obs, full, err = wai_real(case)
+        res.evaluations += 1
+        res.violations += oracle_waiwera(case, geo, d, full, err)
+        res.count('wai-eos-mode:' + case['eos']['mode'])
+        res.count('wai-atm:%d' % case['geo']['atm'])
+        res.count('wai-order:%s' % case['geo']['order'])
+        res.count('wai-json:' + ('ok' if err is None else err[0] + ':' + err[1]))
+        res.count('wai-special-volumes', len(case['vol']))
+        nat = geo.num_atmosphere_blocks
+        if case['vol'] or case['eos']['mode'] in ('sim', 'multi', 'multi+sim') or any(g[1] not in geo.block_name_index or geo.block_name_index[g[1]] < nat for g in case['gens']):
+            res.distinct.add('wai|' + json.dumps(case, sort_keys=True))
+        rq = wai_requests(case, geo, d)
+        for k2, fac in (('eos', 'waiwera_eos'), ('rocks', 'waiwera_rocks'), ('src', 'waiwera_sources'), ('bdy', 'waiwera_boundary')):
+            lines.append(rq[k2]); expect.append((fac, obs[k2], {'waiwera': case}, None))
+        if res.evaluations % 300 == 2:
+            res.sample({'waiwera': True, 'eos': case['eos'], 'simulator': case['simulator'], 'observed': {k: v[:80] for k, v in obs.items()}})
+    # model
+    if use_model:
+        out = core.run_driver('drv_c20', lines)
+        for (fac, exp, case, st1), rep in zip(expect, out):
+            f = res.facet(fac)
+            f['cases'] += 1
+            if rep.startswith('bad-request'):
+                raise RuntimeError('driver could not parse a request of facet %s' % fac)
+            if fac == 'convert_file':
+                kind, e, ms = decode_reply(rep)
+                got = ms['sections'] if kind == 'ok' else None
+                if got != exp:
+                    f['disagreements'] += 1
+                    res.disagreements.append(dict(facet=fac, case=case_json(case), model=got, impl=exp))
+            elif rep != exp:
+                f['disagreements'] += 1
+                if fac == 'convert':
+                    kind, e, ms = decode_reply(rep)
+                    detail = 'model %s %s: %s' % (kind, e, diff_states(ms, normalise(st1)))
+                    res.disagreements.append(dict(facet=fac, case=case_json(case), model=detail, impl=exp[:60]))
+                else:
+                    res.disagreements.append(dict(facet=fac, case=case_json(case) if 'waiwera' not in case else case, model=rep[:300], impl=exp[:300]))
+    else:
+        for (fac, exp, case, st1) in expect:
+            res.facet(fac)['cases'] += 1
+    res.exhaustive = False
+    return res
+
+
+def search(ctx, seconds, res):
+    """failing-input search on the real code alone: widen the streams with other seeds"""
+    found = list(res.violations)
+    known = core.known_keys(ID)
+    t0 = time.time()
+    k = 0
+    while not [v for v in found if v['key'] not in known] and time.time() - t0 < seconds:
+        k += 1
+        c2 = core.Ctx(ctx.prop, ctx.tier, ctx.seed + 1000 * k)
+        c2.model_ok = False
+        try:
+            r = run(c2, scale=0.5, model=False)
+        finally:
+            c2.cleanup()
+        found = r.violations
+    return found
+
+
+def replay(ctx, payload):
+    import importlib
+    order = _section_order()
+    c = payload.get('case')
+    if not c:
+        return False, 'replay file names what no longer checks: %s' % payload.get('broken')
+    if 'waiwera' in c:
+        case = c['waiwera']
+        case['multi'] = [tuple(x) for x in case['multi']]
+        case['gens'] = [tuple(x) for x in case['gens']]
+        geo, d, obs, full, err = wai_real(case)
+        viol = oracle_waiwera(case, geo, d, full, err)
+        txt = 'json(): %s; eos %s; sources %s' % ('ok' if err is None else err, obs['eos'], obs['src'][:120])
+    else:
+        case = case_unjson(c)
+        viol, b, outcome, st1, st0, scope = oracle_conversion(case, ctx.tmp, order)
+        txt = 'ops %r on a %s model: %s; sections %r; generators %r' % (case['ops'], 'AUTOUGH2' if st0['simulator'] else 'TOUGH2',
+                                                                        outcome, st1['sections'], [g[1:4] for g in st1['gens']])
+    want = payload.get('key')
+    hit = [v for v in viol if want is None or v['key'] == want] or viol
+    if hit:
+        txt += '\n' + '\n'.join('  %s: %s' % (v['key'], v['what']) for v in hit[:4])
+    return bool(hit), txt
